@@ -47,6 +47,7 @@ LEVEL = {
     "technique": "static analysis: structural sibling comparison with stdlib source + finite-domain abstract evaluation",
 }
 LEVEL["decided"] += " (R10.7) the descriptor decides 'looked up on the class' by `instance is None` only."
+LEVEL["decided"] += ' R10.3 is path-based: every path through cache_clear resets hits, misses and the store together.'
 
 
 def run(ctx) -> None:
